@@ -408,6 +408,46 @@ Definition key_names (c : cat) (k : pkey)
 
 Definition prime_names (c : cat) := map (fun e => key_names c (fst e)) (prime c).
 
+(* ---- shelve.versions(): the persisted versions ---------------------------
+   one row per entry of the value table: the names along the chain value ->
+   state vector -> algorithm -> task (by the parent ids) with the version of
+   value, state vector and algorithm; None = the python raises (a name without
+   parent or version, an id outside the index).  The python collates the rows
+   into  task.alg -> [alg versions],  task.alg.sv -> [sv versions],
+   task.alg.sv.value -> [value versions]. *)
+Definition vrow := (name * name * name * name * ver * ver * ver)%type.
+Definition version_row (c : cat) (vk : name) : option vrow :=
+  match dissect vk with
+  | Some (Some p1, vn, Some vv) =>
+    match nth_error (i_state c) p1 with
+    | Some sfull =>
+      match dissect sfull with
+      | Some (Some p2, svn, Some svv) =>
+        match nth_error (i_alg c) p2 with
+        | Some afull =>
+          match dissect afull with
+          | Some (Some p3, algn, Some algv) =>
+            match nth_error (i_task c) p3 with
+            | Some tfull =>
+              match dissect tfull with
+              | Some (_, tskn, _) => Some (tskn, algn, svn, vn, algv, svv, vv)
+              | None => None
+              end
+            | None => None
+            end
+          | _ => None
+          end
+        | None => None
+        end
+      | _ => None
+      end
+    | None => None
+    end
+  | _ => None
+  end.
+Definition versions (c : cat) : list (option vrow) :=
+  map (fun e => version_row c (fst e)) (t_value c).
+
 (* ---- version order (dawgie.Version.__lt__ = __le__ and __ne__) ---------- *)
 Definition ver_leb (a b : ver) : bool :=
   let '(d, i, f) := a in
